@@ -2,9 +2,10 @@ SPECIFICATION SpecMC
 CONSTANTS
   Variant = "built"
   Loadables <- PoolTiny
-  OpKinds = {"Load", "Render", "Get", "Validate", "Remove", "Clear", "SetBasePath"}
+  RDatas <- DatasStd
+  OpKinds = {"Load", "Render", "Get", "Validate", "Remove", "Clear", "SetBasePath", "Analyze"}
   ArgNames = {"base", "A", "B", "G"}
-  Entries = {"doc", "tpl"}
+  Entries = {"doc", "tpl", "rnd"}
   MaxLoads = 3
   Depth = 0
 INVARIANTS Inv_ShowsPure Inv_RenderPure Inv_CacheAgree
